@@ -729,3 +729,8 @@ package tds
 //@   ensures [eom-last] err == nil ==> !tdsChan.$open
 //@   ensures [wire-grows] old(tdsChan.tdsConn.conn.$wlen) <= tdsChan.tdsConn.conn.$wlen
 //@   ensures [wire-prefix-kept] forall k int :: 0 <= k && k < old(tdsChan.tdsConn.conn.$wlen) ==> tdsChan.tdsConn.conn.$wire[k] == old(tdsChan.tdsConn.conn.$wire[k])
+//@ func (fieldDataBase).writeTo like FieldData.WriteTo
+//@ func (fieldDataBase).writeToStatus like FieldData.WriteTo
+//@ func (fieldFmtBase).writeToBase like FieldFmt.WriteTo
+//@ func (fieldFmtBasePrecision).writeToPrecision like FieldFmt.WriteTo
+//@ func (fieldFmtBaseScale).writeToScale like FieldFmt.WriteTo
